@@ -246,6 +246,19 @@ func c16Random(c *Ctx) {
 		c.Case(int64(i), func(k *K) {
 			r := k.Rand()
 			starts, ends := genIntervals(r)
+			if k.Idx%2 == 1 && len(starts) > 0 {
+				// starts and ends as adjacent windows of one array (capacity running on)
+				pool := make([]int, 0, 2*len(starts)+3)
+				pool = append(append(append(pool, starts...), ends...), 111, 222, 333)
+				snap := append([]int{}, pool...)
+				n := len(starts)
+				starts, ends = pool[:n], pool[n:2*n]
+				defer func() {
+					if !sameInts(pool, snap) {
+						k.Failf("input-memory-modified", "NewIndex/At wrote into the array its arguments were carved from: %v -> %v", snap, pool)
+					}
+				}()
+			}
 			k.Input("starts", starts)
 			k.Input("ends", ends)
 			ix := regions.NewIndex(starts, ends)
